@@ -770,6 +770,23 @@ pub fn check(problem: &PProblem, solution: &Value, opts: &OracleOptions) -> Vec<
             Some(g) if (g - cost).abs() <= 1e-6 * cost.abs().max(1.) + tol * n_legs * (vt.cost_distance + vt.cost_time) => {}
             got => f.push(Finding::new("C03:statistic-cost", here(&format!("reported {got:?}, fixed + distance*cd + duration*ct = {cost}")))),
         }
+        // the reported numbers alone (no replay needed): the time split of a tour sums up to its duration
+        {
+            let parts: f64 = ["driving", "serving", "waiting", "break", "commuting", "parking"].iter().map(|k| num(&["times", k]).unwrap_or(0.)).sum();
+            let n_acts: f64 = stops.iter().map(|s| s.acts.len() as f64).sum();
+            if let Some(d) = num(&["duration"]) {
+                // fractional times (scaled profile, serving multiplier of a cluster) are cut to whole units part by part
+                let fractional = tol > 0. || problem.clustering.as_ref().is_some_and(|c| c["serving"]["type"] == "multiplier");
+                if (parts - d).abs() > if fractional { (tol + 1.) * n_acts } else { 1e-9 } {
+                    // recorded finding: a required break which the schedule takes when the vehicle leaves is written into the
+                    // departure stop as [departure - duration, departure]; it is counted as break time and in the cost, the
+                    // reported duration begins at the departure
+                    let break_before_departure = stops[0].acts.iter().any(|a| a.kind == "break" && a.time.is_some_and(|t| (t.1 - stops[0].departure).abs() <= tol && ((t.1 - t.0) - (parts - d)).abs() <= tol));
+                    let rule = if break_before_departure { "C03:statistic-split-reported:break-ends-at-departure" } else { "C03:statistic-split-reported" };
+                    schedule_independent.push(Finding::new(rule, here(&format!("reported driving+serving+waiting+break+commuting+parking = {parts}, reported duration = {d}"))));
+                }
+            }
+        }
         let parts_sum = driving + serving + waiting + break_time;
         if (parts_sum - duration).abs() > tol * n_legs + 1e-9 {
             f.push(Finding::new("C03:statistic-split", here(&format!("driving+serving+waiting+break = {parts_sum} != duration {duration}"))));
@@ -984,13 +1001,14 @@ pub fn applies(f: &Finding, family: &str, problem: &PProblem) -> bool {
         || f.rule.starts_with("C03:commute-")
         || f.rule == "C03:statistic-commuting"
         || f.rule == "C03:statistic-parking"
+        || f.rule == "C03:statistic-split-reported"
         || [
             "C01:skills", "C01:group", "C01:compatibility", "C01:capacity", "C01:negative-load", "C01:cluster-time-window", "C01:tour-size",
             "C01:relation-vehicle", "C01:relation-order", "C01:relation-contiguity", "C01:task-order", "C01:resource", "C01:shift-end",
             "C01:shift-start", "C01:shift-start-latest", "C01:unreachable-leg",
         ]
         .contains(&f.rule.as_str());
-    let reqbreak_ok = family != "reqbreak" || f.rule.starts_with("C02:") || f.rule.starts_with("C01:required-break") || f.rule == "C01:capacity" || f.rule == "C03:required-break-outside-tour";
+    let reqbreak_ok = family != "reqbreak" || f.rule.starts_with("C02:") || f.rule.starts_with("C01:required-break") || f.rule == "C01:capacity" || f.rule == "C03:required-break-outside-tour" || f.rule.starts_with("C03:statistic-split-reported");
     cluster_ok && reqbreak_ok
 }
 
